@@ -762,6 +762,8 @@ func c22Extract(repo, genDir string) error {
 	sb.WriteString("]\n")
 	fmt.Fprintf(&sb, "def toAstUnderstood : Bool := %v\n\n", toAstErr == "")
 
+	sb.WriteString(c22ConvTable(funcs))
+	sb.WriteString("\n")
 	sb.WriteString("def wrappers : List Wrapper := [\n")
 	for wi, name := range worder {
 		w := wrappers[name]
